@@ -368,25 +368,56 @@ func Start(o Options) (n *Node, err error) {
 		n.Tap = NewPoolTap()
 		n.Hub.Register(cs, n.Tap, n.Sync, n.RPC, n.P2P)
 	}
-	n.Hub.Start()
-	n.alive = true
-	// the first message to the chain service runs Recover(); do it explicitly so errors are visible
+	// The chain service actor runs Recover() lazily on its first message; run it here, before the actors
+	// start, so that (1) a failure is an error instead of a process exit and (2) it cannot race with the
+	// harness driving the node directly.
 	if err := cs.Recover(); err != nil {
-		n.Stop()
 		return nil, fmt.Errorf("recover: %w", err)
 	}
 	cs.VerifSetRecovered()
+	n.Hub.Start()
+	n.alive = true
 	return n, nil
 }
 
-// Stop stops the actors; the verifdb stores stay in the registry (like files on disk).
+// Stop stops the node's actors (actor names are process-global, so only one node can be alive at a time).
+// The chain service's signature verifier is deliberately NOT closed: verifier goroutines left over from
+// blocks that were rejected before their signature check was awaited would panic ("send on closed channel")
+// and take the harness process down.  The verifdb stores stay in the registry (like files on disk); a later
+// Start on the same Dir re-opens them.
 func (n *Node) Stop() {
 	if n == nil || !n.alive {
 		return
 	}
 	n.alive = false
 	defer func() { recover() }()
-	n.Hub.Stop()
+	n.Quiesce()
+	n.CS.VerifKill()
+	if n.Pool != nil {
+		n.Pool.Stop()
+	}
+	if n.Tap != nil {
+		n.Tap.VerifKill()
+	}
+	n.Sync.VerifKill()
+	n.RPC.VerifKill()
+	n.P2P.VerifKill()
+}
+
+// Quiesce lets the signature verification of a block that was rejected before its result was awaited run to
+// completion (its workers still talk to the pool actor), the way the seconds between two blocks do in a real
+// network.  Without it two verifications overlap and the chain service can block forever in WaitDone.
+func (n *Node) Quiesce() {
+	idle := 0
+	for i := 0; i < 400 && idle < 3; i++ {
+		n.Barrier()
+		time.Sleep(200 * time.Microsecond)
+		if n.CS.VerifVerifierQueued() == 0 {
+			idle++
+		} else {
+			idle = 0
+		}
+	}
 }
 
 // Barrier waits until every message sent so far to the pool and the recorders has been handled.
@@ -409,7 +440,11 @@ func (n *Node) Deliver(b *types.Block) (err error) {
 	}()
 	// a block from the network is a fresh decoded message: never share the object with other nodes
 	err = n.CS.VerifAddBlock(CloneBlock(b), nil, n.Peer)
-	n.Barrier()
+	if err != nil {
+		n.Quiesce()
+	} else {
+		n.Barrier()
+	}
 	return err
 }
 
